@@ -564,6 +564,7 @@ class _Inliner(object):
 
     def __init__(self, tree, modname, defs, new_defs):
         self.ref = reference().get(modname) or set()
+        self.all_new = {q_: v_[0] for q_, v_ in new_defs.items()}  # before helpers used as values are set aside
         self.tree = tree
         self.modname = modname
         self.defs = defs  # qualified name -> def node (all defs)
@@ -685,6 +686,62 @@ class _Inliner(object):
                 names |= {a.arg for a in ast.walk(node) if isinstance(a, ast.arg)}
         return names
 
+    def _kept_closures(self, outer):
+        cache = self.__dict__.setdefault("_kept_cache", {})
+        if outer in cache:
+            return cache[outer]
+        kept = set()
+        had = {r_ for r_ in self.ref if r_.startswith(outer + ".") and "." not in r_[len(outer) + 1:]}
+        have = {d_ for d_ in self.defs if d_.startswith(outer + ".") and "." not in d_[len(outer) + 1:]}
+        node = self.defs.get(outer)
+        lost = (had - have) if outer in self.ref and node is not None else set()
+        if lost:
+            all_new = dict(self.all_new)
+            names = {q_.split(".")[-1]: q_ for q_ in all_new}
+            called, valued = set(), set()
+            callee_ids = {id(c_.func) for c_ in ast.walk(node) if isinstance(c_, ast.Call)}
+            for n_ in ast.walk(node):
+                nm = n_.id if isinstance(n_, ast.Name) else (n_.attr if isinstance(n_, ast.Attribute) else None)
+                if nm in names and isinstance(getattr(n_, "ctx", None), ast.Load):
+                    (called if id(n_) in callee_ids else valued).add(names[nm])
+
+            def recursive(q_):
+                fn_ = all_new[q_]
+                return any(isinstance(c_, ast.Call) and ((isinstance(c_.func, ast.Name) and c_.func.id == fn_.name) or (
+                    isinstance(c_.func, ast.Attribute) and c_.func.attr == fn_.name)) for c_ in ast.walk(fn_))
+
+            def wiring(q_):
+                fn_ = all_new[q_]
+                ids_ = {id(c_.func) for c_ in ast.walk(fn_) if isinstance(c_, ast.Call)}
+                return sum(1 for n_ in ast.walk(fn_) if id(n_) not in ids_ and isinstance(getattr(n_, "ctx", None), ast.Load) and (
+                    (isinstance(n_, ast.Name) and n_.id in names) or (isinstance(n_, ast.Attribute) and n_.attr in names)))
+            # helpers the closures themselves hand on as values count as accounted for, too
+            for q_ in list(called | valued):
+                fn_ = all_new[q_]
+                ids_ = {id(c_.func) for c_ in ast.walk(fn_) if isinstance(c_, ast.Call)}
+                for n_ in ast.walk(fn_):
+                    nm = n_.id if isinstance(n_, ast.Name) else (n_.attr if isinstance(n_, ast.Attribute) else None)
+                    if nm in names and id(n_) not in ids_ and isinstance(getattr(n_, "ctx", None), ast.Load):
+                        valued.add(names[nm])
+            accounted = valued | {q_ for q_ in called if recursive(q_)}
+            missing = len(lost) - len(accounted)
+            if missing > 0:
+                # a lifted closure has at least the parameters it had as a closure
+                try:
+                    with open(os.path.join(os.path.dirname(os.path.abspath(__file__)), "reference_arity.json")) as fh:
+                        arity = json.load(fh).get(self.modname, {})
+                except (OSError, ValueError):
+                    arity = {}
+                least = min([arity.get(l_, 0) for l_ in lost] or [0])
+
+                def nparams(q_):
+                    return len([a for a in all_new[q_].args.args if a.arg not in ("self", "cls")])
+                cands = sorted((q_ for q_ in called if q_ not in accounted and nparams(q_) >= least),
+                               key=lambda q_: (-wiring(q_), -len(list(ast.walk(all_new[q_])))))
+                kept = set(cands[:missing])
+        cache[outer] = kept
+        return kept
+
     def _inlinable(self, q, recv, scope):
         fn, owner, okind = self.new_defs[q]
         me = self._qual(scope)
@@ -694,14 +751,14 @@ class _Inliner(object):
                 isinstance(c_.func, ast.Attribute) and c_.func.attr == fn.name)) for c_ in ast.walk(fn)):
             return None  # a helper that calls itself stays a function wherever it is called from
         # closures lifted out of a reference function: when the function we are in has lost nested functions it has in the
-        # reference tree, the new helpers it calls are those closures under another roof - they stay functions (the rules
-        # find them by what they do), they are not dissolved into their caller
+        # reference tree, as many of the new helpers it uses are those closures under another roof.  The ones used as values
+        # (callbacks) or calling themselves stay functions anyway; if that does not account for every lost closure, the
+        # directly called helpers that wire callbacks to other new helpers (then the biggest) are kept too - the rules find
+        # them by what they do.  Every other new helper is an extraction and is dissolved into its caller as usual.
         for i_ in range(len(scope), 0, -1):
             if scope[i_ - 1][0] == "func":
                 outer = self._qual(scope[:i_])
-                had = {r_ for r_ in self.ref if r_.startswith(outer + ".") and "." not in r_[len(outer) + 1:]}
-                have = {d_ for d_ in self.defs if d_.startswith(outer + ".") and "." not in d_[len(outer) + 1:]}
-                if outer in self.ref and had - have:
+                if q in self._kept_closures(outer):
                     return None
                 break
         kind = _decorator_kind(fn)
